@@ -230,16 +230,22 @@ pub struct Blackout {
     /// Models a peer that never sends (or a link that never passes) a certain kind of PDU.
     #[serde(default)]
     pub kind_mask: u32,
+    /// drop only the first `limit` matching datagrams (0 = all of them)
+    #[serde(default)]
+    pub limit: u32,
 }
 impl Blackout {
+    pub fn first_of_kind(from: usize, to: usize, kind: Kind, n: u32) -> Self {
+        Blackout { from, to, from_ordinal: Some(0), from_ms: None, until_ms: None, kind_mask: 1 << (kind as u32), limit: n }
+    }
     pub fn from_ordinal(from: usize, to: usize, ord: u32) -> Self {
-        Blackout { from, to, from_ordinal: Some(ord), from_ms: None, until_ms: None, kind_mask: 0 }
+        Blackout { from, to, from_ordinal: Some(ord), from_ms: None, until_ms: None, kind_mask: 0, limit: 0 }
     }
     pub fn of_kinds(from: usize, to: usize, kinds: &[Kind]) -> Self {
-        Blackout { from, to, from_ordinal: Some(0), from_ms: None, until_ms: None, kind_mask: kinds.iter().fold(0, |m, k| m | (1 << (*k as u32))) }
+        Blackout { from, to, from_ordinal: Some(0), from_ms: None, until_ms: None, kind_mask: kinds.iter().fold(0, |m, k| m | (1 << (*k as u32))), limit: 0 }
     }
     pub fn window(from: usize, to: usize, a: u64, z: Option<u64>) -> Self {
-        Blackout { from, to, from_ordinal: None, from_ms: Some(a), until_ms: z, kind_mask: 0 }
+        Blackout { from, to, from_ordinal: None, from_ms: Some(a), until_ms: z, kind_mask: 0, limit: 0 }
     }
 }
 
@@ -752,6 +758,7 @@ async fn run_async(sc: &Scenario, roots: Vec<PathBuf>) -> Trace {
         let mut seq: u64 = 0;
         let mut ord: HashMap<(usize, usize), u32> = HashMap::new();
         let mut ind_fired: Vec<bool> = vec![false; sc.actions.len()];
+        let mut blackout_hits: HashMap<usize, u32> = HashMap::new();
         // puts first: a user command scheduled for the same instant follows the Put it refers to
         for (idx, p) in sc.puts.iter().enumerate() {
             heap.push(std::cmp::Reverse((p.at_ms, seq, Event::IssuePut { idx })));
@@ -793,7 +800,7 @@ async fn run_async(sc: &Scenario, roots: Vec<PathBuf>) -> Trace {
                     let is_healed = healed_c.load(AtomicOrdering::Relaxed);
                     let mut deliveries: Vec<u64> = vec![t + sc.lat_ms];
                     if !is_healed {
-                        for b in &sc.blackouts {
+                        for (bi, b) in sc.blackouts.iter().enumerate() {
                             if b.from == sub.from && b.to == to {
                                 let by_ord = b.from_ordinal.map(|k| this_ord >= k).unwrap_or(false);
                                 let by_time = match (b.from_ms, b.until_ms) {
@@ -803,7 +810,11 @@ async fn run_async(sc: &Scenario, roots: Vec<PathBuf>) -> Trace {
                                 };
                                 let kind_ok = b.kind_mask == 0 || (b.kind_mask & (1 << (kind_of(&pdu) as u32))) != 0;
                                 if (by_ord || by_time) && kind_ok {
-                                    fate = Fate::Dropped("blackout");
+                                    let used = blackout_hits.entry(bi).or_insert(0u32);
+                                    if b.limit == 0 || *used < b.limit {
+                                        *used += 1;
+                                        fate = Fate::Dropped("blackout");
+                                    }
                                 }
                             }
                         }
